@@ -151,6 +151,8 @@ def r7_2(ctx):
         for c in calls:
             if isinstance(c.ret, Poly):
                 tot = tot + c.ret
+            elif isinstance(c.ret, Unk):
+                tot = tot + Poly.sym(c.ret.tag)
         ret = ex[1] if ex and ex[0] == "return" else None
         if ret != tot:
             ctx.violation(construct(f, "org-returns-sum"), f.loc(), f"organization returns `{ret!r}`, not the sum of its teams' and workplaces' results `{tot!r}`")
